@@ -7,6 +7,7 @@ import (
 	"encoding/json"
 	"flag"
 	"fmt"
+	"go/types"
 	"os"
 	"path/filepath"
 	"runtime/debug"
@@ -16,6 +17,7 @@ import (
 	"time"
 
 	"verifchk/internal/an"
+	"verifchk/internal/inl"
 	"verifchk/internal/load"
 	"verifchk/internal/rules"
 )
@@ -68,6 +70,9 @@ func main() {
 	evdir := flag.String("evidence", "/verif/evidence", "evidence directory")
 	knownPath := flag.String("known", "/verif/KNOWN_FINDINGS.txt", "known findings file")
 	dump := flag.Bool("dump", false, "print all obligations")
+	listFuncs := flag.Bool("list-funcs", false, "print the keys of all functions declared in the module (to regenerate internal/inl/known_funcs.txt) and exit")
+	noInline := flag.Bool("no-expand", false, "do not expand unknown helper functions before the analysis")
+	showNorm := flag.Bool("show-expansion", false, "print the notes of the helper expansion")
 	flag.Parse()
 	tierSet := false
 	flag.Visit(func(f *flag.Flag) {
@@ -113,9 +118,37 @@ func main() {
 		os.Exit(1)
 	}
 
-	prog, err := load.Load(*repo, "")
+	if *listFuncs {
+		p0, err := load.LoadOverlay(*repo, "", nil)
+		if err != nil {
+			fmt.Fprintln(os.Stderr, err)
+			os.Exit(2)
+		}
+		var keys []string
+		for _, pk := range p0.Init {
+			if pk.TypesInfo == nil {
+				continue
+			}
+			for id, o := range pk.TypesInfo.Defs {
+				if f, ok := o.(*types.Func); ok && id != nil {
+					keys = append(keys, inl.FuncKey(f))
+				}
+			}
+		}
+		sort.Strings(keys)
+		for _, k := range keys {
+			fmt.Println(k)
+		}
+		return
+	}
+	prog, err := loadNormalised(*repo, *noInline)
 	if err != nil {
 		failAll(err.Error())
+	}
+	if *showNorm {
+		for _, n := range prog.Normalised {
+			fmt.Println("expansion:", n)
+		}
 	}
 	if len(prog.TypeErrors) > 0 {
 		failAll("type errors in module packages: " + strings.Join(prog.TypeErrors[:min(3, len(prog.TypeErrors))], "; "))
@@ -136,6 +169,64 @@ func main() {
 		}
 	}
 	os.Exit(exit)
+}
+
+// loadNormalised loads the module, expands helper functions unknown to the rules (internal/inl) through
+// source overlays - at most three rounds - and builds SSA for the result. If an expansion does not
+// type-check it is abandoned and the unmodified source is analysed.
+func loadNormalised(repo string, noExpand bool) (*load.Program, error) {
+	p, err := load.LoadOverlay(repo, "", nil)
+	if err != nil || len(p.TypeErrors) > 0 || noExpand {
+		if err == nil && len(p.TypeErrors) == 0 {
+			p.BuildSSA()
+		}
+		return p, err
+	}
+	orig := p
+	overlay := map[string][]byte{}
+	var notes []string
+	read := func(path string) ([]byte, error) {
+		if b, ok := overlay[path]; ok {
+			return b, nil
+		}
+		return os.ReadFile(path)
+	}
+	for round := 1; round <= 4; round++ {
+		ov, ns := inl.Round(p.Init, p.Fset, read, round)
+		notes = append(notes, ns...)
+		if len(ov) == 0 {
+			break
+		}
+		for k, v := range ov {
+			overlay[k] = v
+		}
+		np, err := load.LoadOverlay(repo, "", overlay)
+		if err != nil || len(np.TypeErrors) > 0 {
+			why := ""
+			if err != nil {
+				why = err.Error()
+			} else {
+				why = np.TypeErrors[0]
+			}
+			if dir := os.Getenv("VERIF_EXPANSION_DEBUG"); dir != "" {
+				for k, v := range overlay {
+					os.WriteFile(filepath.Join(dir, strings.ReplaceAll(strings.TrimPrefix(k, "/"), "/", "_")), v, 0o644)
+				}
+			}
+			orig.Normalised = append(notes, "helper expansion abandoned (the rewritten source does not type-check: "+why+"); the unmodified source is analysed")
+			orig.BuildSSA()
+			return orig, nil
+		}
+		p = np
+	}
+	p.Normalised = notes
+	if dir := os.Getenv("VERIF_EXPANSION_DEBUG"); dir != "" {
+		for k, v := range overlay {
+			os.WriteFile(filepath.Join(dir, strings.ReplaceAll(strings.TrimPrefix(k, "/"), "/", "_")), v, 0o644)
+		}
+	}
+	p.BuildSSA()
+	return p, nil
 }
 
 // runProp runs one property's rules on the loaded program; returns true if it found a violation.
@@ -256,6 +347,9 @@ func writeEvidence(dir, prop, tier string, seed int, p *rules.Prop, c *an.Ctx, v
 		cov["module_packages"] = len(c.P.Init)
 		cov["exhaustive"] = false
 		cov["allow_list"] = c.Allow
+		if len(c.P.Normalised) > 0 {
+			cov["helper_expansion"] = c.P.Normalised
+		}
 		ev["assumptions"] = append([]string{
 			"go/packages + go/types + go/ssa (x/tools v0.29.0) model the program the compiler builds (default GOOS/GOARCH, no build tags)",
 			"rules decide structural necessary conditions only; behaviour over schedules/histories/values is not decided",
